@@ -242,8 +242,13 @@ func (vm *VM) generalIndirect(r int8) reflect.Value {
 		panic(errNilPointer)
 	}
 	elem := v.Elem()
-	if elem.Kind() == reflect.Func {
+	switch elem.Kind() {
+	case reflect.Func:
 		return reflect.ValueOf(&callable{native: NewNativeFunction("", "", elem)})
+	case reflect.Interface:
+		// A general register holds the dynamic value of an interface value
+		// (the invalid reflect.Value for nil), not a value of interface kind.
+		return elem.Elem()
 	}
 	return elem
 }
